@@ -56,11 +56,36 @@ func noteKey(note string) string {
 func genC09Base(t *rapid.T) (model.Packet, *ref.Frame) {
 	typ := gen.Type(t)
 	o := gen.Opts{WellFormed: true, SpecValid: true, AllowEmptyUserKey: true, NoHuge: true}
+	if rapid.IntRange(0, 3).Draw(t, "loosebase") == 0 {
+		// the four classes must be rejected whatever else the frame holds:
+		// bases with empty topics / filters, odd option bytes, any strings
+		o = gen.Opts{AllowEmptyUserKey: true, NoHuge: true}
+		if typ == model.CONNECT {
+			o.WellFormed = true // keep the protocol name: another one is rejected before the fields behind it are read
+		}
+	}
 	m := gen.Packet(t, typ, o)
+	if m.Type == model.PUBLISH && m.QoS > 2 {
+		m.QoS = 2 // with both QoS bits set the layout (packet identifier or not) is undefined
+	}
 	if typ == model.DISCONNECT {
 		gen.DisconnectProps(t, &m, o)
 	}
 	st := drawStyle(t).style()
+	if (m.Type == model.SUBSCRIBE || m.Type == model.UNSUBSCRIBE) && rapid.IntRange(0, 3).Draw(t, "emptyelement") == 0 {
+		// a list in which an empty element follows a non-empty one and is
+		// followed by a longer one (a decoder that reuses a scratch value
+		// across elements skips exactly into the next element)
+		x := gen.Topic(t, "x", gen.Opts{Small: true}, true)
+		y := x + gen.Topic(t, "y", gen.Opts{Small: true}, true)
+		if m.Type == model.SUBSCRIBE {
+			m.Filters = []model.Filter{{Filter: x, Opts: 1}, {Filter: "", Opts: 0}, {Filter: y, Opts: 2}}
+		} else {
+			m.UnsubFilters = []string{x, "", y}
+		}
+		m.Normalize()
+		return m, ref.Tree(&m, st)
+	}
 	if rapid.IntRange(0, 7).Draw(t, "hugefield") == 0 {
 		// one string / binary field at the top of the length range: 65533,
 		// 65534 or 65535 bytes (where 16-bit length arithmetic wraps)
